@@ -280,14 +280,13 @@ func (s *Solver) Check(asserts []*Term, wantModel bool) (SatResult, map[string]u
 
 func (s *Solver) checkIncremental(as []*Term, wantModel bool) (SatResult, map[string]uint64) {
 	div, fp := s.ts.HasHardArith(as)
-	if fp && s.useHard {
-		// FP kernels stall the incremental bit-blaster; go to the portfolio directly
+	if (fp || div) && s.useHard {
+		// FP kernels and division by non-power-of-two constants stall the incremental
+		// bit-blaster (and a timeout inside the incremental process risks leaving its assertion
+		// stack out of step): go to the portfolio directly
 		return Unknown, nil
 	}
 	to := s.timeout
-	if div && s.useHard {
-		to = 3 * time.Second // division by non-power-of-two constants: quick try, then portfolio
-	}
 	if s.cmd == nil {
 		if err := s.start(); err != nil {
 			fmt.Fprintln(os.Stderr, "solver start failed:", err)
@@ -347,8 +346,16 @@ func (s *Solver) checkIncremental(as []*Term, wantModel bool) (SatResult, map[st
 		}
 	}
 	if bad {
+		// an error (e.g. "push canceled" when a timeout fires between commands) can leave the
+		// assertion stack of the process out of step with ours: start a fresh process
 		s.stats.Errors++
-		res = Unknown
+		s.restart()
+		return Unknown, nil
+	}
+	if res == Unknown {
+		// timed out: do not trust the process state any further
+		s.restart()
+		return Unknown, nil
 	}
 	var model map[string]uint64
 	if res == Sat && wantModel {
